@@ -507,15 +507,16 @@ func (w *flWorld) enabled(maxReaders int) []fop {
 }
 
 type c09Job struct {
-	Backend string `json:"backend"`
-	Init    []int  `json:"init"`
-	Hwm     int    `json:"hwm"`
-	MaxHwm  int    `json:"max_hwm"`
-	Depth   int    `json:"depth"`
-	Readers int    `json:"readers"`
-	Prefix  []fop  `json:"prefix,omitempty"` // non-initial start state: operations applied (and checked) before the search
-	Path    []fop  `json:"path,omitempty"`   // replay
-	Big     bool   `json:"big,omitempty"`    // the 0xFFFF directed enumeration instead
+	Backend  string `json:"backend"`
+	Init     []int  `json:"init"`
+	Hwm      int    `json:"hwm"`
+	MaxHwm   int    `json:"max_hwm"`
+	Depth    int    `json:"depth"`
+	Readers  int    `json:"readers"`
+	Prefix   []fop  `json:"prefix,omitempty"`   // non-initial start state: operations applied (and checked) before the search
+	Path     []fop  `json:"path,omitempty"`     // replay
+	Big      bool   `json:"big,omitempty"`      // the 0xFFFF directed enumeration instead
+	Deadline int64  `json:"deadline,omitempty"` // unix seconds; the search stops there and reports the depth completed
 }
 
 type c09Res struct {
@@ -523,6 +524,8 @@ type c09Res struct {
 	Transitions int    `json:"transitions"`
 	MaxDepth    int    `json:"max_depth"`
 	AllocOrders int    `json:"alloc_orders"` // extra executions enumerating map iteration orders
+	Capped      bool   `json:"capped,omitempty"`
+	DepthDone   int    `json:"depth_done"`
 	Fail        string `json:"fail,omitempty"`
 	FailPath    []fop  `json:"fail_path,omitempty"`
 	Sample      string `json:"sample,omitempty"`
@@ -599,6 +602,10 @@ func c09Work(job c09Job) c09Res {
 	for depth := 0; depth < job.Depth && len(frontier) > 0; depth++ {
 		var next [][]fop
 		for _, path := range frontier {
+			if job.Deadline > 0 && time.Now().Unix() > job.Deadline {
+				res.Capped = true
+				return res
+			}
 			w, msg := c09Replay(job, path)
 			if msg != "" {
 				res.Fail, res.FailPath = "replay diverged: "+msg, path
@@ -647,6 +654,7 @@ func c09Work(job c09Job) c09Res {
 			}
 		}
 		frontier = next
+		res.DepthDone = depth + 1
 	}
 	return res
 }
@@ -766,6 +774,10 @@ func C09(tier string) int {
 		// one transaction that allocated several single pages (consecutive ids, same allocating tx), a reader older than it
 		{{K: "addR"}, {K: "beginW"}, {K: "alloc", A: 1}, {K: "alloc", A: 1}, {K: "alloc", A: 2}, {K: "commit"}},
 	}
+	dl := start.Add(80 * time.Second)
+	if tier == "thorough" {
+		dl = start.Add(25 * time.Minute)
+	}
 	var meta []c09Job
 	for _, b := range []string{"array", "hashmap"} {
 		for _, in := range inits {
@@ -777,7 +789,7 @@ func C09(tier string) int {
 						continue // quick: two start sets for the non-initial states
 					}
 				}
-				meta = append(meta, c09Job{Backend: b, Init: in, Hwm: hwm, MaxHwm: maxHwm + 2*btoi(pi > 0), Depth: d, Readers: 3, Prefix: pf})
+				meta = append(meta, c09Job{Backend: b, Init: in, Hwm: hwm, MaxHwm: maxHwm + 2*btoi(pi > 0), Depth: d, Readers: 3, Prefix: pf, Deadline: dl.Unix()})
 			}
 		}
 		meta = append(meta, c09Job{Backend: b, Big: true})
@@ -791,6 +803,7 @@ func C09(tier string) int {
 	pool.Timeout = 40 * time.Minute
 	defer pool.Close()
 	states, trans, orders, maxDepth := 0, 0, 0, 0
+	capped := ""
 	var viols, errs, samples []string
 	_ = pool.Run(jobs, func(r par.Result) {
 		j := meta[r.Idx]
@@ -806,6 +819,9 @@ func C09(tier string) int {
 		states += res.States
 		trans += res.Transitions
 		orders += res.AllocOrders
+		if res.Capped {
+			capped += fmt.Sprintf("%s %v prefix %d ops: deadline reached after depth %d; ", j.Backend, j.Init, len(j.Prefix), res.DepthDone)
+		}
 		if res.MaxDepth > maxDepth {
 			maxDepth = res.MaxDepth
 		}
@@ -826,7 +842,7 @@ func C09(tier string) int {
 	cov := map[string]interface{}{
 		"states": states, "transitions": trans, "traces_validated_against_impl": trans, "evaluations": trans, "distinct_nontrivial": states,
 		"rule":    fmt.Sprintf("breadth-first search over every sequence of at most %d allocator operations as the database can issue them (Init with each start set over page ids 2..%d, writer begin = ReleasePendingPages, Allocate(1..3), Free of every in-use extent incl. a two-page one, commit = Write, Rollback followed by Reload from the last written page or by NoSyncReload from a rescan, AddReadonlyTXID / RemoveReadonlyTXID with up to 3 readers, Write + Read into both backends), both backends; on the hash-map backend every map iteration order inside Allocate is a choice and all are enumerated; every operation is executed on the real allocator and judged by the specification relation (not lowest-id-first); plus the directed enumeration of list lengths 0,1,2,65533..65537 for the 0xFFFF convention; the search starts from the initial state and from three non-initial states reached by fixed, checked prefixes (readers of different ages with later allocations / pinned pending pages / one transaction that allocated several consecutive single pages); a state is a distinct (model, allocator dump incl. internal order) key", depth, maxHwm-1),
-		"samples": samples, "exhaustive": len(errs) == 0, "harness_errors": errs, "max_depth": maxDepth, "map_order_alternatives_run": orders,
+		"samples": samples, "exhaustive": len(errs) == 0 && capped == "", "caps_hit": capped, "harness_errors": errs, "max_depth": maxDepth, "map_order_alternatives_run": orders,
 	}
 	ev := &evid.Evidence{PropertyID: "C09", Tier: tier, Level: "model_checking", Coverage: cov, Violations: len(viols),
 		Assumptions: []string{"caller contract as guard of the alphabet: only in-use pages >= 2 are freed, never one the same transaction allocated; writer id = last committed + 1; readers register at the last committed id",
